@@ -166,7 +166,10 @@ impl MoveGen {
 
         // a pawn that can also capture en passant has two entries
         for x in 0..self.moves.len() {
-            if self.moves[x].src == chess_move.source {
+            // a promotion and a plain move never share an entry
+            if self.moves[x].src == chess_move.source
+                && self.moves[x].promotion == chess_move.piece.is_some()
+            {
                 self.moves[x].moves -= chess_move.dest;
                 found = true;
             }
